@@ -89,6 +89,35 @@ def mutations(path, ops=None):
                     if m:
                         rep = init if 'downgrade' not in pat else 'Arc::downgrade(&%s)' % init
                         yield i, 'reinit:%s' % name, l[:m.start()] + rep + l[m.end():]
+    if ops is not None and 'relock' in ops:
+        # a critical section cut in two: at a statement boundary inside `let g = x.lock()...; ...` the guard is released and taken
+        # again ("narrowed critical section"): whatever was decided before the cut is acted on after somebody else may have moved
+        for i, l in code:
+            m = re.match(r'^(\s*)let\s+(mut\s+)?([a-z_][a-z_0-9]*)\s*(?::[^=]+)?=\s*(.+\.lock\(\)\s*(?:\.expect\(.*\)|\.unwrap\(\)))\s*;\s*$', l.split('//')[0].rstrip())
+            if not m:
+                continue
+            ind, mut, name, expr = m.group(1), m.group(2) or '', m.group(3), m.group(4)
+            prev = l.strip()
+            first = True
+            for j in range(i + 1, min(i + 80, len(lines))):
+                lj = lines[j]
+                s = lj.strip()
+                if not s or s.startswith('//'):
+                    continue
+                indj = lj[:len(lj) - len(lj.lstrip())]
+                if len(indj) < len(ind) or re.search(r'\bdrop\(%s\)' % name, s):
+                    break
+                if j in codeset and indj == ind and prev.endswith((';', '}')) and not s.startswith(('}', '.', ')', '|', 'else', '=>', '&&', '||')) \
+                        and re.search(r'\b%s\b' % name, '\n'.join(lines[j:j + 40])):
+                    if not first:
+                        yield j, 'relock:%s' % name, '%sdrop(%s); let %s%s = %s; %s' % (ind, name, mut, name, expr, s)
+                    first = False
+                elif j in codeset and mut and len(indj) > len(ind) and prev.endswith((';', '}', '{')) and (s.endswith(';') or s.endswith('{')) \
+                        and not s.startswith(('}', '.', ')', '|', 'else', '&&', '||')) and '=>' not in s and not s.startswith('QueueState::') \
+                        and re.search(r'\b%s\b' % name, '\n'.join(lines[j:j + 12])):
+                    # inside a nested block of the critical section: the guard is released and assigned again
+                    yield j, 'relock-in:%s' % name, '%sdrop(%s); %s = %s; %s' % (indj, name, name, expr, s)
+                prev = s
     if ops is not None and 'itertrunc' in ops:
         # an iteration that silently covers less than everything
         for i, l in code:
@@ -387,6 +416,8 @@ def test_one(job):
         fam = {'cmpstate'}
     elif job['op'].startswith('adjcmp'):
         fam = {'adjcmp'}
+    elif job['op'].startswith('relock'):
+        fam = {'relock'}
     cand = [(i, op, nw) for (i, op, nw) in mutations(path, fam) if i == idx and op == job['op']]
     if not cand:
         job['tests'] = 'lost'
